@@ -8,6 +8,7 @@ CONSTANTS
   OtherPeer = FALSE
   ClearOnAnyDisconnect = FALSE
   SeqCallers = TRUE
+  GhostCallers = {}
   PeerMayClose = FALSE
   LeakIfGoneAtTimeout = FALSE
   RemoveOnTimeout = TRUE
